@@ -48,6 +48,14 @@ def sources(tier, rng):
                 out.append(("mutated", l[:k] + rng.choice("\"'&.EeDd%$!#(),:;=<> ") + l[k:]))
             if rng.random() < 0.3:
                 out.append(("spelled", l.lower()))
+    # numeric constants written directly before a word, in statements that parse (exponent letters E and D included)
+    for num in ("1", "2", "300", "32767", "32768", "1.5", "65", "1E5", "2D3", "7!", "9#", "&H1F"):
+        for tmpl in ("10 IF A THEN B=%sELSE B=2", "10 PRINT %sEQV 3", "10 PRINT %sEQV%s", "10 IF A THEN PRINT %s*%sELSE PRINT 0",
+                     "10 FOR I=1 TO %sSTEP 2", "10 PRINT %sAND 3", "10 PRINT %sOR%s", "10 PRINT %sMOD 3", "10 PRINT %sXOR 1", "10 PRINT %sIMP 1",
+                     "10 PRINT %sDX", "10 PRINT %sEX;%sD", "10 IF A=%sTHEN 10", "10 IF A THEN %sELSE %s", "10 ON A GOTO %s,%s:END",
+                     "10 D=%s:E=%sD", "10 PRINT %sE:PRINT %sD:END"):
+            out.append(("glued", tmpl.replace("%s", num)))
+            out.append(("glued", tmpl.replace("%s", num).lower()))
     for s in gen_lines.SAMPLE_PROGRAM_LINES:
         out.append(("sample", s))
     for n in (1000, 1015, 1016, 1017, 1024):
